@@ -162,7 +162,7 @@ func runC14(c *Ctx) {
 	for round := 0; round < rounds; round++ {
 		var cases []c14Case
 		positions := []string{"before-grab", "after-grab", "before-check", "between-check-and-removal"}
-		calls := []string{"later", "none", "shorter", "del", "del-reinsert", "fresh-short"}
+		calls := []string{"later", "none", "shorter", "del", "del-reinsert", "fresh-short", "refused-none", "refused-later"}
 		if c14Prop == "C06" {
 			calls = []string{"later", "none", "del-reinsert"}
 		}
@@ -191,6 +191,9 @@ func runC14(c *Ctx) {
 		for i := 0; i < 3 && (c14Prop == "C14" || c14Prop == "C15"); i++ {
 			cases = append(cases, c14Case{Kind: "after-clear", Nth: i})
 		}
+		for i := 0; i < 2 && (c14Prop == "C14" || c14Prop == "C06"); i++ {
+			cases = append(cases, c14Case{Kind: "set-after-sweep", Nth: i})
+		}
 		var wg sync.WaitGroup
 		for i := range cases {
 			if (i+round)%c.NParts != c.Part {
@@ -211,6 +214,8 @@ func runC14(c *Ctx) {
 					c14Backlog(c, cs)
 				case "after-clear":
 					c14AfterClear(c, cs)
+				case "set-after-sweep":
+					c14SetAfterSweep(c, cs)
 				}
 			}(cases[i])
 		}
@@ -236,7 +241,7 @@ func (e *c14Env) tr(f string, a ...any) {
 }
 
 func (e *c14Env) fail(sig, d string) {
-	if c14Prop == "C06" && !strings.HasPrefix(sig, "rewritten-entry-removed") && sig != "entry-without-ttl-removed" {
+	if c14Prop == "C06" && !strings.HasPrefix(sig, "rewritten-entry-removed") && sig != "entry-without-ttl-removed" && sig != "set-after-sweep-lost" {
 		e.c.R.Obs("findings_owned_by_other_property["+sig+"]", 1)
 		return
 	}
@@ -250,6 +255,9 @@ func (e *c14Env) fail(sig, d string) {
 
 func newC14Env(c *Ctx, cs c14Case, nkeys int, setbuf int) *c14Env {
 	cfg := lab.CacheCfg{NumCounters: 1000, MaxCost: 1 << 20, BufferItems: 64, IgnoreInternalCost: true, KeyKind: "uint64", NKeys: nkeys, TTLTick: 1, SetBuf: setbuf}
+	if strings.HasPrefix(cs.Call, "refused-") {
+		cfg.ShouldUpdate = "parity" // ShouldUpdate refuses values with an odd sequence number
+	}
 	l, err := lab.NewLab(cfg)
 	if err != nil {
 		c.R.Inconc(1)
@@ -306,6 +314,7 @@ func c14Directed(c *Ctx, cs c14Case) {
 	}
 	defer e.l.Forget()
 	l, cl := e.l, e.cl
+	nv := func(k int) uint64 { return cl.NextValParity(k, false) } // acceptable to ShouldUpdate where that is configured
 	closed := false
 	defer func() {
 		e.sw.releaseHold()
@@ -314,7 +323,7 @@ func c14Directed(c *Ctx, cs c14Case) {
 		}
 	}()
 	ctlKey := cs.NKeys
-	ctlVal := cl.NextVal(ctlKey)
+	ctlVal := nv(ctlKey)
 	cl.Set(ctlKey, ctlVal, 1, 0)
 	cl.Wait()
 	alignToBucket()
@@ -322,7 +331,7 @@ func c14Directed(c *Ctx, cs c14Case) {
 	vals := make([]uint64, cs.NKeys)
 	t0 := time.Now()
 	for k := 0; k < cs.NKeys; k++ {
-		vals[k] = cl.NextVal(k)
+		vals[k] = nv(k)
 		if !cl.Set(k, vals[k], 1, ttl) {
 			r.Inconc(1)
 			return
@@ -348,24 +357,30 @@ func c14Directed(c *Ctx, cs c14Case) {
 		race = k
 		switch cs.Call {
 		case "later":
-			newVal = cl.NextVal(k)
+			newVal = nv(k)
 			cl.Set(k, newVal, 1, time.Hour)
 		case "none":
-			newVal = cl.NextVal(k)
+			newVal = nv(k)
 			cl.Set(k, newVal, 1, 0)
 		case "shorter":
-			newVal = cl.NextVal(k)
+			newVal = nv(k)
 			cl.Set(k, newVal, 1, time.Millisecond)
 		case "fresh-short":
-			newVal = cl.NextVal(k)
+			newVal = nv(k)
 			freshT0 = time.Now()
 			cl.Set(k, newVal, 1, freshTTL)
 			freshT1 = time.Now()
+		case "refused-none":
+			newVal = cl.NextValParity(k, true)
+			cl.Set(k, newVal, 1, 0)
+		case "refused-later":
+			newVal = cl.NextValParity(k, true)
+			cl.Set(k, newVal, 1, time.Hour)
 		case "del":
 			cl.Del(k)
 		case "del-reinsert":
 			cl.Del(k)
-			newVal = cl.NextVal(k)
+			newVal = nv(k)
 			cl.Set(k, newVal, 1, 0)
 		}
 		e.tr("racing call %s on key %d (new value %#x)", cs.Call, k, newVal)
@@ -489,6 +504,20 @@ func c14Directed(c *Ctx, cs c14Case) {
 		}
 		if ox != 1 {
 			e.fail("old-value-exit-count", fmt.Sprintf("the overwritten/deleted value of key %d was passed to OnExit %d times", race, ox))
+		}
+	case "refused-none", "refused-later":
+		// ShouldUpdate refused the re-write: the entry keeps its value AND its expiration, so it is reclaimed like the others
+		_, acc := snap.KeyCosts[l.Hashes[race][0]]
+		// (the refused value itself may be turned away, or - when its buffered item is applied after the sweep has
+		// removed the old entry - be stored as a fresh insert: both are fine)
+		outcome = "refused-reclaimed"
+		if hit && got == newVal && acc {
+			outcome = "refused-reclaimed-then-inserted"
+			hit, acc = false, false
+		}
+		if oe != 1 || ox != 1 || acc || hit {
+			outcome = "refused-leaked"
+			e.fail("refused-rewrite-entry-not-reclaimed/"+cs.Position, fmt.Sprintf("a re-write (%s) of key %d was refused by ShouldUpdate while the sweep was %s; the entry kept its old expiration, which has passed, and a covering sweep completed, but OnEvict=%d OnExit=%d still-accounted=%v retrievable=%v", cs.Call, race, cs.Position, oe, ox, acc, hit))
 		}
 	case "del":
 		if hit {
@@ -807,6 +836,12 @@ func runC07Directed(c *Ctx) {
 	rounds := c.N(2, 12)
 	for round := 0; round < rounds; round++ {
 		var wg sync.WaitGroup
+		if round%c.NParts == c.Part {
+			for j, sb := range []int{1, 2, 8, 64} {
+				wg.Add(1)
+				go func(sb int, stream uint64) { defer wg.Done(); c07Dropped(c, sb, stream) }(sb, uint64(round*10+j))
+			}
+		}
 		idx := 0
 		for _, pos := range []string{"after-grab", "before-check"} {
 			for _, nth := range []int{1, 2, 4} {
@@ -1098,4 +1133,94 @@ func c14AfterClear(c *Ctx, cs c14Case) {
 	default:
 		r.DistinctKey("after-clear/%d/reclaimed", nclears)
 	}
+}
+
+// c14SetAfterSweep: entries of cost 0, 1 and 3 (the cache ignores the internal cost, so 0 is a legal accounted cost)
+// expire and are swept on an idle cache; C14: each must then be gone from the store AND from the accounting, reported
+// once; C06: the same keys written again (ample capacity) must be retrievable after Wait.
+func c14SetAfterSweep(c *Ctx, cs c14Case) {
+	r := c.R
+	r.Eval(1)
+	c.J.Case(cs)
+	e := newC14Env(c, cs, 4, 0)
+	if e == nil {
+		return
+	}
+	defer e.l.Forget()
+	l, cl := e.l, e.cl
+	defer l.C.Close()
+	canary := lab.NewWatchdog(1, time.Hour, func(string, bool, string) {})
+	defer canary.Stop()
+	costs := []int64{0, 1, 3}
+	if cs.Nth%2 == 1 {
+		costs = []int64{0, 0, 0}
+	}
+	alignToBucket()
+	const ttl = 300 * time.Millisecond
+	vals := make([]uint64, len(costs))
+	for k, cost := range costs {
+		vals[k] = cl.NextVal(k)
+		if !cl.Set(k, vals[k], cost, ttl) {
+			r.Inconc(1)
+			return
+		}
+	}
+	cl.Wait()
+	t1 := time.Now()
+	sweepable := time.Unix(ristretto.VerifStorageBucket(t1.Add(ttl)), 0)
+	swept := func() bool {
+		for _, v := range vals {
+			if ev, _ := valueEvents(l.CallbacksSince(0), v); ev == 0 {
+				return false
+			}
+		}
+		return true
+	}
+	for time.Now().Before(sweepable.Add(4*time.Second)) && !swept() {
+		time.Sleep(50 * time.Millisecond)
+	}
+	if !swept() {
+		// bounded progress for cost 1 is decided by the after-clear case; here it is only a precondition
+		r.Inconc(1)
+		if canary.MaxLateMs() <= 1000 && c14Prop == "C14" {
+			e.fail("expired-entry-not-reclaimed", fmt.Sprintf("entries of cost %v with ttl %v, sweepable for 4 s on an idle cache, were not all reported through OnEvict", costs, ttl))
+		}
+		return
+	}
+	time.Sleep(20 * time.Millisecond) // the sweep removes the key from the accounting right after the callback of its value
+	l.C.Pause()
+	snap := l.C.Snapshot()
+	l.C.Resume()
+	r.Obs("set_after_sweep_cases", 1)
+	for k, v := range vals {
+		_, accounted := snap.KeyCosts[l.Hashes[k][0]]
+		stored := false
+		for _, en := range snap.Entries {
+			if en.Value == v {
+				stored = true
+			}
+		}
+		ev, ex := valueEvents(l.CallbacksSince(0), v)
+		e.tr("key %d cost %d: stored=%v accounted=%v OnEvict=%d OnExit=%d", k, costs[k], stored, accounted, ev, ex)
+		if stored || accounted || ev != 1 || ex != 1 {
+			e.fail("swept-entry-left-behind", fmt.Sprintf("entry of key %d (cost %d, ttl %v) was reported by the sweep but afterwards stored=%v accounted=%v OnEvict=%d OnExit=%d", k, costs[k], ttl, stored, accounted, ev, ex))
+			if c14Prop == "C14" {
+				return
+			}
+		}
+	}
+	for k := range vals {
+		nv := cl.NextVal(k)
+		if !cl.Set(k, nv, 1, 0) {
+			r.Inconc(1)
+			return
+		}
+		cl.Wait()
+		got, ok := cl.Get(k)
+		if !ok || got != nv {
+			e.fail("set-after-sweep-lost", fmt.Sprintf("key %d expired with cost %d and was swept; a later Set (cost 1, capacity %d, nearly empty) returned true, Wait returned, Get = (%#x, %v), want (%#x, true)", k, costs[k], snap.MaxCost, got, ok, nv))
+			return
+		}
+	}
+	r.DistinctKey("set-after-sweep/%v", costs)
 }
